@@ -26,6 +26,19 @@ checks = {
              text='Exploration: each delivery of an honest NEW_VIEW / VIEW_CHANGE / PREPARE / COMMIT to a correct peer meeting the stated precondition at that moment must have the expected effect (adoption, vote/prepare/commit stored), with the adversary poisoning what correct nodes emit.', ref='4/C11'),
 }
 
+
+UNIT_NOTE = "Trusted base: math/big (arithmetic reference), the generated membuffers readers, Go's runtime timers and goroutine profile."
+checks.update({
+ 'C06': dict(engine='unit', note=UNIT_NOTE, technique='runtime differential monitor: real quorum functions next to a math/big reference on enumerated and boundary weight vectors',
+             text='Exploration, exhaustive in the small: every weight vector of 4..5 members with small weights and every subset/pair of subsets, plus boundary totals up to 2^64-1 and random vectors; thresholds, subset verdicts, pairwise quorum intersection > f, attainability, monotonicity and immunity to duplicate/stranger/zero-weight ids are compared with big-integer arithmetic.', ref='4/C06'),
+ 'C18': dict(engine='unit+sim', technique='runtime monitor: leader function tabulated against committee[view mod n]; VIEW_CHANGE destinations judged in sim executions',
+             text='Exploration: the real leader function for n=4..64 over dense small views, powers of two, neighbourhoods of 2^31, 2^32, 2^63, 2^64-1 and random views (panics caught), and behaviour in randomized executions (vote destinations, who collects, who sends NEW_VIEW).', ref='4/C18'),
+ 'C19': dict(engine='unit', note=UNIT_NOTE, technique='runtime monitor: timeout formula against math/big; trace checker over Register/Stop/read scripts on the real timer trigger',
+             text='Exploration: CalcTimeout for 8 bases x ~400 views against min(base*2^v, MaxInt64); random scripts on the real TimerBasedElectionTrigger with the harness as channel reader judged by an online trace checker (one trigger per arming, exact pair, not early, handler called with its pair, armed timer delivers, no goroutine left).', ref='4/C19'),
+ 'C20': dict(engine='unit', note=UNIT_NOTE, technique='runtime monitor: build -> raw -> parse round trip compared field by field with generator inputs, signatures re-verified',
+             text='Exploration: tens of thousands of generated messages of all five types (nested proofs, 0..20 votes/prepare senders, 0..256-byte ids/hashes/signatures/shares, 64-bit boundary values) and block proofs; every field and signature compared after the round trip; two parses of the same bytes compared.', ref='4/C20'),
+})
+
 def cmd(pid, tier):
     return "./check %s --tier %s" % (pid, tier)
 
@@ -41,6 +54,7 @@ manifest = {
  },
  "engines": [
   {"name": "sim", "path": "sim/", "serves_properties": ["C01","C03","C04","C05","C07","C08","C09","C10","C11"], "kind_free_text": "deterministic single-threaded scheduler over N real WorkerLoops (verif hooks), Byzantine adversary with own keys + replay, online monitors over the SPI event log"},
+  {"name": "unit", "path": "unit/", "serves_properties": ["C02","C06","C15","C17","C18","C19","C20"], "kind_free_text": "real function / component run on generated and enumerated inputs next to an independent reference oracle (math/big, sequential models, semantic re-parse)"},
  ],
  "checks": [],
  "notes": "Runtime monitoring family: every check is an oracle observing executions of the real code. See DESIGN.md. Known findings: known_findings.jsonl.",
